@@ -13,4 +13,10 @@ mkdir -p evidence/replay
 if [ "$tier" = replay ]; then
   exec ./bin/anycheck -repo "$repo" -prop "$prop" -tier quick -known KNOWN_FINDINGS.txt -replaydir evidence/replay -replay "$3"
 fi
-exec ./bin/anycheck -repo "$repo" -prop "$prop" -tier "$tier" -known KNOWN_FINDINGS.txt -replaydir evidence/replay -evidence "evidence/$prop.json"
+./bin/anycheck -repo "$repo" -prop "$prop" -tier "$tier" -known KNOWN_FINDINGS.txt -replaydir evidence/replay -evidence "evidence/$prop.json"
+rc=$?
+if [ "$tier" = thorough ] && [ $rc -ne 2 ] && [ -f "evidence/$prop.json" ]; then
+  # self-validation of the rules against the catalogue of property-breaking changes; informational, never changes the verdict
+  python3 tools/selfval.py "$prop" "evidence/$prop.json" || true
+fi
+exit $rc
